@@ -770,6 +770,38 @@ func c15Gen(r *gen.R) (children []c15Child, ups []c15Upd, ann string) {
 		}
 		children = append(children, c)
 	}
+	// repeated ids: children are positions, equal ids at different positions are unrelated
+	// as far as applying goes (closed way / member listed twice, figure-eight, a node
+	// visited twice in the middle, one id everywhere). The twin carries the same child
+	// (as annotation produces) or the same id with other values.
+	if n >= 2 && r.Chance(0.35) {
+		twin := func(dst, src int) {
+			if r.Chance(0.7) {
+				children[dst] = children[src]
+			} else {
+				children[dst].Type, children[dst].Ref = children[src].Type, children[src].Ref
+				if children[dst].Type != "way" {
+					children[dst].Orient = 0
+				}
+			}
+		}
+		switch r.Intn(4) {
+		case 0: // closed
+			twin(n-1, 0)
+		case 1: // figure-eight: closed and crossing itself in the middle
+			twin(n-1, 0)
+			if n >= 5 {
+				twin(n-2, 1+r.Intn(n-4))
+			}
+		case 2: // one child visited twice somewhere
+			i := r.Intn(n - 1)
+			twin(r.Range(i+1, n-1), i)
+		default: // the same id at every position
+			for i := 1; i < n; i++ {
+				twin(i, 0)
+			}
+		}
+	}
 	if ann == "partial" && n > 0 && c15FullyAnnotated(children) {
 		c := &children[r.Intn(n)]
 		c.Version, c.CS, c.Lat, c.Lon = 0, 0, 0, 0
@@ -1027,8 +1059,19 @@ func (x *c15Run) check(in c15Input, order, ann string) {
 	if c15HasOOR(in) {
 		oorClass = "oor"
 	}
-	static := fmt.Sprintf("%s/%s/n%s/m%s/ts%s/%s/%s/ord%v", in.kind(), order, c15Class(len(in.Children), 0, 1, 4, 12),
-		c15Class(len(in.Updates), 0, 1, 5, 15, 30), c15Class(len(distinct), 0, 1, 3, 8, 30), oorClass, ann, c15ChildOrdered(in.Updates))
+	rep := "" // some id occurs at more than one position
+	ids := map[string]bool{}
+	for _, c := range in.Children {
+		id := fmt.Sprint(c.Type, c.Ref)
+		if ids[id] {
+			rep = "/rep"
+			x.res.Add("stored_inputs_with_repeated_ids", 1)
+			break
+		}
+		ids[id] = true
+	}
+	static := fmt.Sprintf("%s/%s/n%s/m%s/ts%s/%s/%s/ord%v%s", in.kind(), order, c15Class(len(in.Children), 0, 1, 4, 12),
+		c15Class(len(in.Updates), 0, 1, 5, 15, 30), c15Class(len(distinct), 0, 1, 3, 8, 30), oorClass, ann, c15ChildOrdered(in.Updates), rep)
 	x.res.SetMax("children", int64(len(in.Children)))
 	x.res.SetMax("updates", int64(len(in.Updates)))
 	x.res.SetMax("distinct_timestamps", int64(len(distinct)))
@@ -1108,7 +1151,7 @@ func c15WayView(cs []c15Child) []c15Child {
 }
 
 // c15EnumChildren gives the fixed children of the enumerated part.
-func c15EnumChildren(n int, hole bool) []c15Child {
+func c15EnumChildren(n int, hole, closed bool) []c15Child {
 	var cs []c15Child
 	for i := 0; i < n; i++ {
 		c := c15Child{Type: "way", Ref: int64(100 + i), Role: "outer", Version: 1 + i, CS: int64(50 + i),
@@ -1117,6 +1160,9 @@ func c15EnumChildren(n int, hole bool) []c15Child {
 			c.Version, c.CS, c.Lat, c.Lon = 0, 0, 0, 0
 		}
 		cs = append(cs, c)
+	}
+	if closed && n >= 2 {
+		cs[n-1] = cs[0] // closed way / member listed twice
 	}
 	return cs
 }
@@ -1145,11 +1191,12 @@ func c15Exec(c fw.Case) *fw.Result {
 		}
 		lists := 0
 		for _, rel := range []bool{false, true} {
-			for _, hole := range []bool{false, true} {
-				if hole && (n == 0 || rel) {
+			for _, variant := range []string{"full", "hole", "closed"} {
+				hole, closed := variant == "hole", variant == "closed"
+				if hole && (n == 0 || rel) || closed && n < 2 {
 					continue
 				}
-				children := c15EnumChildren(n, hole)
+				children := c15EnumChildren(n, hole, closed)
 				if !rel {
 					children = c15WayView(children)
 				}
@@ -1246,8 +1293,8 @@ func init() {
 	fw.Register(&fw.Prop{
 		ID:    "C15",
 		Level: "exploration",
-		Rule: "enumerated part (seed independent): 0-3 children, every update list of length <= 3 (4 in thorough) over (index 0..n where n is out of range, three timestamps, reverse flag on relations), fully annotated and with an unannotated first node; " +
-			"random part: 0-12 children (annotated in several shapes / partially / not), 0-30 updates drawn over a pool of 1-30 timestamps (duplicates, 1 ns neighbours, non-UTC locations), up to 2 out-of-range indices in 12% of inputs, each bag stored index-sorted, time-sorted, shuffled and interleaved (children mixed, each child in time order), as a way and as a relation. " +
+		Rule: "enumerated part (seed independent): 0-3 children, every update list of length <= 3 (4 in thorough) over (index 0..n where n is out of range, three timestamps, reverse flag on relations), fully annotated, with an unannotated first node, and closed (last child = first child); " +
+			"random part: 0-12 children (annotated in several shapes / partially / not), 0-30 updates drawn over a pool of 1-30 timestamps (duplicates, 1 ns neighbours, non-UTC locations), ids repeated across positions in 35% of inputs with >= 2 children (closed, figure-eight, one child twice, one id everywhere; twin identical or same id with other values), up to 2 out-of-range indices in 12% of inputs, each bag stored index-sorted, time-sorted, shuffled and interleaved (children mixed, each child in time order), as a way and as a relation. " +
 			"consumer part: multipolygon relations with 1-2 closed, fully annotated way members (3-7 nodes, 1-8 updates, four stored orders) annotated through annotate.Relations at every instant as the relation's commit time, once with the ways carrying their updates and once with the reference-applied ways (the only public path into internal/mputil.Group -> LineStringAt). " +
 			"Per stored input every distinct instant (zero time, just below, at, between, just above, far future) is evaluated against the reference transition; pairs t1<=t2 for composability (all pairs when few). " +
 			"A signature is (kind, stored order, size classes of children/updates/distinct timestamps, out-of-range class, annotation class, child-ordered flag, position of t, late-update-stored-before-in-time-one flag); distinct_nontrivial counts distinct signatures.",
